@@ -427,6 +427,7 @@ class C03(Prop):
 
     # ------------------------------------------------------------------ implementation / model / oracle
     def run_impl(self, case):
+        ic.repeat_alarm(self.case_timeout)
         if case["kind"] == "sim":
             return run_sim(case)
         return {"batches": ic.run_history(case)}
